@@ -48,6 +48,7 @@ fn main() {
     }};
   }
   let code = match id.as_str() {
+    "C03" => dispatch!(props::c03::C03),
     "C04" => dispatch!(props::c04::C04),
     "C07" => dispatch!(props::c07::C07),
     "C08" => dispatch!(props::c08::C08),
